@@ -325,6 +325,29 @@ pub fn run(run: &mut Run) -> Finish {
             }
         }
     });
+    // slice 5: long function maps (anything the scope search does per block of entries is crossed)
+    let long_ns = [63usize, 64, 65, 66, 129, 300];
+    run.par_slice("long function maps: 63/64/65/66/129/300 entries (4 per line, 5 names), 4 encodings, tokens on, one column before and after a sample of entries (first, around the 64th, middle, last) and past the last line", 5, long_ns.len() as u64 * 4, |idx, l| {
+        let k = idx & ((1 << 40) - 1);
+        let (n, style) = (long_ns[(k / 4) as usize], (k % 4) as usize);
+        let fm = FnMap { names: (0..5).map(|i| format!("fn{i}")).collect(), entries: (0..n as u64).map(|i| (1 + i / 4, (i % 4) * 5, i % 5)).collect() };
+        let mut tokens = vec![];
+        for e in [0, 1, 62, 63, 64, 65, n / 2, n - 2, n - 1] {
+            let (line, col, _) = fm.entries[e.min(n - 1)];
+            let (l0, c0) = ((line - 1) as u32, col as u32);
+            tokens.push((Some(0), l0, c0));
+            tokens.push((Some(0), l0, c0 + 1));
+            if c0 > 0 {
+                tokens.push((Some(0), l0, c0 - 1));
+            }
+        }
+        tokens.push((Some(0), (n / 4 + 3) as u32, 0));
+        let c = Case { metas: vec![Meta::Fn(fm, style)], tokens };
+        if let Some((sig, what)) = check_case(&c) {
+            l.violation(idx, Viol::new(format!("C14/{sig}/long-function-map"), what, json!({"case": serde_json::to_value(&c).unwrap(), "class": "long-function-map"})));
+        }
+        l.case(true, h64(&("long", n, style)));
+    });
     // slice 2: 1..3 sources, every metadata combination
     let menu = meta_menu();
     let nm = menu.len() as u64;
